@@ -222,3 +222,84 @@ Proof. exact xrun_flush_failure_exit1. Qed.
 Theorem C17_xrun_osexit_after_reader_fault_witness :
   exists x, xreachable false (xinit 2 [false]) x /\ xsummary x = (MLoop false, true, FPending, Some 1, true).
 Proof. exact xrun_osexit_after_reader_fault. Qed.
+
+(* ------------------------------------------------------------------ every process-exit site of the source (C17/ExitSites.v)
+   over coq/gen/Gen_ExitSites.v, REGENERATED from the tree under check on every run: every os.Exit call, every creation
+   of the lib.ExitRequest sentinel, every return of the cli.ErrUsagePrinted sentinel *)
+From Coq Require Import ZArith.
+From Miller Require Import C17.ExitSiteTypes gen.Gen_ExitSites C17.ExitSites C17.Combined.
+
+Theorem C17_exit_sites_table_ok : all_exit_sites_ok = true.
+Proof. exact exit_sites_table_ok. Qed.
+Print Assumptions C17_exit_sites_table_ok.
+
+(* every os.Exit site with a non-zero literal status is preceded by a write to stderr (in its block, or -- for
+   exitOnError's ErrUsagePrinted case -- at every place that returns that sentinel) *)
+Theorem C17_nonzero_exit_site_has_diagnostic :
+  forall s c, In s exit_sites -> s_code s = Some c -> c <> 0%Z -> diag_before s = true.
+Proof. exact nonzero_exit_has_diagnostic. Qed.
+Print Assumptions C17_nonzero_exit_site_has_diagnostic.
+
+(* no os.Exit(0) on an error path: the only direct exit with status 0 is the help sentinel, not under an error test *)
+Theorem C17_exit0_site_only_on_help :
+  forall s, In s exit_sites -> s_code s = Some 0%Z -> s_guard s = GHelp /\ s_err_test s = false.
+Proof. exact exit0_only_on_help. Qed.
+Print Assumptions C17_exit0_site_only_on_help.
+
+Theorem C17_computed_status_exit_sites :
+  forall s, In s exit_sites -> s_code s = None -> s_guard s = GExitRequest \/ s_guard s = GAuxent.
+Proof. exact computed_status_sites. Qed.
+Print Assumptions C17_computed_status_exit_sites.
+
+Theorem C17_exit_request_nonzero_has_diagnostic :
+  forall s c, In s exit_request_sites -> s_code s = Some c ->
+    (c <> 0%Z -> s_stderr_before s = true) /\ (c = 0%Z -> s_err_test s = false).
+Proof. exact exit_request_nonzero_has_diagnostic. Qed.
+Print Assumptions C17_exit_request_nonzero_has_diagnostic.
+
+Theorem C17_usage_printed_sentinel_is_truthful :
+  forall s, In s usage_printed_sites -> s_stderr_before s = true.
+Proof. exact usage_printed_sentinel_is_truthful. Qed.
+Print Assumptions C17_usage_printed_sentinel_is_truthful.
+
+(* ------------------------------------------------------------------ ONE combined transition system (C17/Combined.v):
+   skeleton steps (all failure steps included) + ProcessEndOfStream on the handlers of the verb that handles the
+   end-of-stream marker.  Exit status 0 => reader at end of input, every verb forwarded the marker, writer finished,
+   nothing failed, AND every handler of every manager of every verb was flushed and closed successfully -- for every
+   chain length, number of batches, handler configuration, interleaving and fault. *)
+Theorem C17_combined_exit0_all_handlers_closed :
+  forall (k : nat) (kinds : list bool) (hs : list hset) (c : cstate),
+    length hs = length kinds -> forallb never_closed hs = true ->
+    creachable (cinit k kinds hs) c -> mn (cbase c) = MExit false ->
+    (rd (cbase c) = RDone /\ Forall (fun v => vp v = VDone) (cvs (ch (cbase c))) /\ wr (cbase c) = WDone
+     /\ cfailed (ch (cbase c)) = false)
+    /\ Forall (fun h => all_closed_ok h = true) (chs c).
+Proof. exact cexit0_all_handlers_closed. Qed.
+Print Assumptions C17_combined_exit0_all_handlers_closed.
+
+Theorem C17_combined_failing_close_never_exit0 :
+  forall (k : nat) (kinds : list bool) (hs : list hset) (c : cstate),
+    length hs = length kinds -> forallb never_closed hs = true ->
+    creachable (cinit k kinds hs) c ->
+    Exists (fun h => all_closed_ok h = false) (chs c) -> mn (cbase c) <> MExit false.
+Proof. exact cfailing_close_never_exit0. Qed.
+Print Assumptions C17_combined_failing_close_never_exit0.
+
+(* the combined system refines the skeleton: its runs are skeleton runs (termination / no deadlock carry over) *)
+Theorem C17_combined_projects_to_skeleton :
+  forall (k : nat) (kinds : list bool) (hs : list hset) (c : cstate),
+    creachable (cinit k kinds hs) c -> reachable false (init k kinds) (cbase c).
+Proof. exact creachable_base. Qed.
+Print Assumptions C17_combined_projects_to_skeleton.
+
+(* non-vacuity: the hypotheses are satisfiable and the combined system moves (first step: the reader polls) *)
+Example C17_combined_nonvacuous :
+  let hs := [[[HOpen false; HOpen true]; [HOpen false]]] in
+  length hs = length [false] /\ forallb never_closed hs = true /\
+  exists c', cstep (cinit 1 [false] hs) c'.
+Proof.
+  cbv zeta. split; [reflexivity|]. split; [reflexivity|].
+  exists (mkCS (mkS (RSending 1) false (mkC 0 false false [fresh_verb false] []) WRecv false (MLoop false))
+               [[[HOpen false; HOpen true]; [HOpen false]]]).
+  split; [unfold step; cbn; now left|]. cbn. constructor; [reflexivity|constructor].
+Qed.
